@@ -129,6 +129,60 @@ pub fn gen_multi(src: &mut Src, _i: usize) -> Case {
     case
 }
 
+/// medium-tall screens (8 - 40 rows) with distinct content on every row; each call first
+/// touches a scattered handful of rows (so they are already marked) and then runs one or
+/// two commands that move many rows at once
+pub fn gen_tall_scattered(src: &mut Src, _i: usize) -> Case {
+    let cols = src.range(2, 7);
+    let rows = src.range(8, 40);
+    let mut case = Case::new(cols, rows, gen::limit(src));
+    let mut fill = String::new();
+    for r in 0..rows {
+        fill.push_str(&format!("\x1b[{};1H{}{}", r + 1, (b'A' + (r % 26) as u8) as char, (b'a' + ((r * 7) % 26) as u8) as char));
+    }
+    case.calls.push(Call::FeedStr(fill));
+    if src.chance(1, 3) {
+        let t = src.range(1, rows - 1);
+        let b = src.range(t + 1, rows);
+        case.calls.push(Call::FeedStr(format!("\x1b[{};{}r", t, b)));
+    }
+    for _ in 0..src.range(1, 6) {
+        let mut s = String::new();
+        // scattered touches: every k-th row from a random start, or random rows
+        let step = src.range(1, (rows / 3).max(2));
+        let start = src.below(rows);
+        if src.chance(2, 3) {
+            let mut r = start;
+            while r < rows {
+                s.push_str(&format!("\x1b[{};{}H{}", r + 1, src.range(1, cols), *src.pick(&["x", "\x1b[K", "\x1b[X", "#"])));
+                r += step;
+            }
+            if src.chance(1, 2) {
+                s.push_str(&format!("\x1b[{};1H!", rows));
+            }
+        } else {
+            for _ in 0..src.range(1, 5) {
+                s.push_str(&format!("\x1b[{};1Hy", src.range(1, rows)));
+            }
+        }
+        for _ in 0..src.range(1, 2) {
+            let row = src.range(1, rows);
+            let n = *src.pick(&[1usize, 1, 2, 3, rows / 2, rows]);
+            s.push_str(&format!("\x1b[{};1H", row));
+            s.push_str(&match src.below(8) {
+                0 | 1 => format!("\x1b[{}L", n),
+                2 | 3 => format!("\x1b[{}M", n),
+                4 => format!("\x1b[{}S", n),
+                5 => format!("\x1b[{}T", n),
+                6 => "\x1bM".to_string(),
+                _ => "\n".repeat(n),
+            });
+        }
+        case.calls.push(Call::FeedStr(s));
+    }
+    case
+}
+
 /// large screens (more than 255 rows / columns) and many calls
 pub fn gen_large(src: &mut Src, _i: usize) -> Case {
     let (cols, rows) = gen::large_size(src);
@@ -195,6 +249,7 @@ pub fn run(env: &Env) -> PropRun {
     let mut parts = vec![];
     let es = enum_single();
     parts.push(run_part(env, "enum-single-commands", es.len(), true, "sizes {1x1,2x2,3x4,5x3} x primary/alternate x {wrapped,unwrapped,sparse} content x every cursor cell incl. wrap-pending x 40 single mutating commands", &|i| es.get(i).cloned(), &j));
+    parts.push(random_part(env, "tall-scattered", env.tier.scale(30_000, 30), &gen_tall_scattered, &j));
     parts.push(random_part(env, "large-screens", env.tier.scale(1_500, 30), &gen_large, &j));
     parts.push(random_part(env, "many-calls", env.tier.scale(200, 20), &|s: &mut Src, i| super::c01::gen_many_calls(s, i), &j));
     parts.push(random_part(env, "single-op-calls", env.tier.scale(100_000, 40), &gen_single_ops, &j));
